@@ -816,6 +816,37 @@ MUTANTS = [
       "            if lower >= upper:\n                raise ValueError(\"The upper bound of the range must be \" +\n"
       "                                 \"larger than the lower bound.\")\n"
       "            dist = uniform(loc=lower, scale=upper - lower)\n", 'C15'),
+    # ---------------- seeding round 5: regression mutants for the rules it led to
+    M('update-published-in-finally', S,
+      "        fstream.close()\n        os.replace(filepath_tmp, filepath)\n\n    def write_shell_update",
+      "        try:\n            pass\n        finally:\n            fstream.close()\n            os.replace(filepath_tmp, filepath)\n\n    def write_shell_update", 'C06 C05 C03 C02'),
+    M('temp-file-exclusive-create', S, "        fstream = h5py.File(filepath_tmp, 'w')", "        fstream = h5py.File(filepath_tmp, 'x')", 'C06'),
+    M('job-generators-spawned', N,
+      "                rngs = [np.random.default_rng(seed) for seed in\n                        np.random.SeedSequence(self.rng.integers(\n                            2**32 - 1)).spawn(n_jobs)]\n",
+      "                rngs = self.rng.spawn(n_jobs)\n", 'C05 C11 C03'),
+    M('union-members-by-group-names', U,
+      "        bound.bounds = [bound_class.read(\n            group['bound_{}'.format(i)], rng=bound.rng)\n            for i in range(len(bound.log_v_all))]\n",
+      "        bound.bounds = [bound_class.read(group[key], rng=bound.rng)\n                        for key in group if key.startswith('bound_')]\n", 'C09 C07'),
+    M('mixture-reset-early-return', B,
+      "        if rng is not None:\n            if self.ellipsoid is not None:\n                self.ellipsoid.reset(rng)\n            if self.cube is not None:\n                self.cube.reset(rng)\n",
+      "        if rng is None or self.ellipsoid is None:\n            return\n\n        self.ellipsoid.reset(rng)\n        if self.cube is not None:\n            self.cube.reset(rng)\n", 'C08 C11'),
+    M('cache-prefix-written', N,
+      "        group.create_dataset('points', data=self.points,\n",
+      "        group.create_dataset('points', data=self.points[:10000],\n", 'C09'),
+    M('flag-set-after-transition-write', S,
+      "                    self.discard_exploration = discard_exploration\n                    if self.filepath is not None:\n                        self.write(self.filepath, overwrite=True)\n",
+      "                    if self.filepath is not None:\n                        self.write(self.filepath, overwrite=True)\n                    self.discard_exploration = discard_exploration\n", 'C05 C12'),
+    M('dictionary-clips-unit-points', PR,
+      "        return self.physical_to_dictionary(self.unit_to_physical(points))",
+      "        points = np.clip(points, 1e-16, 1 - 1e-16)\n        return self.physical_to_dictionary(self.unit_to_physical(points))", 'C15'),
+    M('periodic-dropped-when-falsy', S, "        self.periodic = periodic\n",
+      "        self.periodic = periodic if np.any(periodic) else None\n", 'C16'),
+    M('shift-from-strictly-higher-points', N,
+      "            bound.shift = PhaseShift.compute(points[log_l >= log_l_min],\n                                             periodic)\n",
+      "            bound.shift = PhaseShift.compute(points[log_l > log_l_min],\n                                             periodic)\n", 'C16'),
+    M('batch-size-restored-from-file', S,
+      "                            'n_update_iter', 'n_like_iter']:\n                    setattr(self, key, group.attrs[key])",
+      "                            'n_update_iter', 'n_like_iter', 'n_batch']:\n                    setattr(self, key, group.attrs[key])", 'C10 C05'),
     M('job-returns-the-caller', N,
       "        bound.sample(n_points=n_points, return_points=False)\n        return bound\n",
       "        bound.sample(n_points=n_points, return_points=False)\n        return self\n", 'C08 C03'),
